@@ -1265,9 +1265,12 @@ static void DecodeMULDIV(Word Props) {
 
         if (Props & 0x8000) {
             SetOpSize(1);
+        } else if (Props & 0x4000) {
+            SetOpSize(0);
         }
         switch (DecodeAdr(
-                &ArgStr[1], MModReg16 | ((OpSize == 1) ? 0 : MModReg8), &AdrResult)) {
+                &ArgStr[1], ((OpSize == 0) ? 0 : MModReg16) | ((OpSize == 1) ? 0 : MModReg8),
+                &AdrResult)) {
         case ModReg8:
             if (AdrResult.Val > 7) {
                 WrError(ErrNum_InvAddrMode);
@@ -1856,6 +1859,7 @@ static void InitFields(void) {
 
     AddInstTable(InstTable, "MULU", 0x0020, DecodeMULDIV);
     AddInstTable(InstTable, "DIVU", 0x00e1, DecodeMULDIV);
+    AddInstTable(InstTable, "DIVUW", 0x40e1, DecodeMULDIV);
     AddInstTable(InstTable, "MULUW", 0x8020, DecodeMULDIV);
     AddInstTable(InstTable, "DIVUX", 0x80e1, DecodeMULDIV);
 
